@@ -57,7 +57,10 @@ def parseCfg (j : Json) : E Cfg := do
       pure (some l)
     | some _ => throw "bad sizes"
   let getN (k : String) : E Nat := do jNat (← field j k)
-  pure { p1 := ← getN "p1", p2 := ← getN "p2", p4 := ← getN "p4", bk := ← (← field j "bk").getInt?,
+  let p3 ← match fieldOpt j "p3" with
+    | some v => jNat v
+    | none => pure 0
+  pure { p1 := ← getN "p1", p2 := ← getN "p2", p3, p4 := ← getN "p4", bk := ← (← field j "bk").getInt?,
          p5 := ← getN "p5", ns, ls, fixed, sizes, virt := ← (← field j "virt").getBool?,
          thor := ← (← field j "thor").getInt? }
 
